@@ -39,6 +39,58 @@ structure Msg where
   body : Body
   deriving DecidableEq, Repr
 
+/-! ### the literal strings of src/message.rs, as bytes -/
+namespace K
+/-- "a" -/
+def a : Bytes := [97]
+/-- "e" -/
+def e : Bytes := [101]
+/-- "q" -/
+def q : Bytes := [113]
+/-- "r" -/
+def r : Bytes := [114]
+/-- "t" -/
+def t : Bytes := [116]
+/-- "y" -/
+def y : Bytes := [121]
+/-- "id" -/
+def id : Bytes := [105, 100]
+/-- "target" -/
+def target : Bytes := [116, 97, 114, 103, 101, 116]
+/-- "info_hash" -/
+def infoHash : Bytes := [105, 110, 102, 111, 95, 104, 97, 115, 104]
+/-- "want" -/
+def want : Bytes := [119, 97, 110, 116]
+/-- "port" -/
+def port : Bytes := [112, 111, 114, 116]
+/-- "implied_port" -/
+def impliedPort : Bytes := [105, 109, 112, 108, 105, 101, 100, 95, 112, 111, 114, 116]
+/-- "token" -/
+def token : Bytes := [116, 111, 107, 101, 110]
+/-- "values" -/
+def values : Bytes := [118, 97, 108, 117, 101, 115]
+/-- "nodes" -/
+def nodes : Bytes := [110, 111, 100, 101, 115]
+/-- "nodes6" -/
+def nodes6 : Bytes := [110, 111, 100, 101, 115, 54]
+/-- "ping" -/
+def ping : Bytes := [112, 105, 110, 103]
+/-- "find_node" -/
+def findNode : Bytes := [102, 105, 110, 100, 95, 110, 111, 100, 101]
+/-- "get_peers" -/
+def getPeers : Bytes := [103, 101, 116, 95, 112, 101, 101, 114, 115]
+/-- "announce_peer" -/
+def announcePeer : Bytes := [97, 110, 110, 111, 117, 110, 99, 101, 95, 112, 101, 101, 114]
+/-- "n4" -/
+def n4 : Bytes := [110, 52]
+/-- "n6" -/
+def n6 : Bytes := [110, 54]
+/-- "N4" -/
+def N4 : Bytes := [78, 52]
+/-- "N6" -/
+def N6 : Bytes := [78, 54]
+end K
+
 /-! ### UTF-8 (Rust's `str::from_utf8`) -/
 
 def isCont (b : Nat) : Bool := 128 ≤ b && b ≤ 191
@@ -97,44 +149,42 @@ def decodeNodes (addrLen : Nat) : Nat → Bytes → Option (List Handle)
 
 /-! ### encoder: the BEP template, keys in sorted order -/
 
-def bstr (s : String) : BVal := .bytes (str s)
-
 def wantVal (w : Want) : BVal :=
   .list (BList.ofList (match w with
-    | .n4 => [bstr "n4"]
-    | .n6 => [bstr "n6"]
-    | .both => [bstr "n4", bstr "n6"]))
+    | .n4 => [.bytes K.n4]
+    | .n6 => [.bytes K.n6]
+    | .both => [.bytes K.n4, .bytes K.n6]))
 
-def reqName : Req → String
-  | .ping _ => "ping"
-  | .findNode .. => "find_node"
-  | .getPeers .. => "get_peers"
-  | .announce .. => "announce_peer"
+def reqName : Req → Bytes
+  | .ping _ => K.ping
+  | .findNode .. => K.findNode
+  | .getPeers .. => K.getPeers
+  | .announce .. => K.announcePeer
 
 def reqArgs : Req → List BVal
-  | .ping id => [bstr "id", .bytes id]
+  | .ping id => [.bytes K.id, .bytes id]
   | .findNode id target w =>
-    [bstr "id", .bytes id, bstr "target", .bytes target] ++ (match w with | some w => [bstr "want", wantVal w] | none => [])
+    [.bytes K.id, .bytes id, .bytes K.target, .bytes target] ++ (match w with | some w => [.bytes K.want, wantVal w] | none => [])
   | .getPeers id ih w =>
-    [bstr "id", .bytes id, bstr "info_hash", .bytes ih] ++ (match w with | some w => [bstr "want", wantVal w] | none => [])
+    [.bytes K.id, .bytes id, .bytes K.infoHash, .bytes ih] ++ (match w with | some w => [.bytes K.want, wantVal w] | none => [])
   | .announce id ih port token =>
-    [bstr "id", .bytes id] ++ (match port with | none => [bstr "implied_port", .int 1] | some _ => []) ++
-    [bstr "info_hash", .bytes ih, bstr "port", .int (Int.ofNat (port.getD 0)), bstr "token", .bytes token]
+    [.bytes K.id, .bytes id] ++ (match port with | none => [.bytes K.impliedPort, .int 1] | some _ => []) ++
+    [.bytes K.infoHash, .bytes ih, .bytes K.port, .int (Int.ofNat (port.getD 0)), .bytes K.token, .bytes token]
 
 def respArgs (r : Resp) : List BVal :=
-  [bstr "id", .bytes r.id] ++
-  (if r.nodes4.isEmpty then [] else [bstr "nodes", .bytes (r.nodes4.flatMap compactNode)]) ++
-  (if r.nodes6.isEmpty then [] else [bstr "nodes6", .bytes (r.nodes6.flatMap compactNode)]) ++
-  (match r.token with | some t => [bstr "token", .bytes t] | none => []) ++
-  (if r.values.isEmpty then [] else [bstr "values", .list (BList.ofList (r.values.map fun a => .bytes (compactAddr a)))])
+  [.bytes K.id, .bytes r.id] ++
+  (if r.nodes4.isEmpty then [] else [.bytes K.nodes, .bytes (r.nodes4.flatMap compactNode)]) ++
+  (if r.nodes6.isEmpty then [] else [.bytes K.nodes6, .bytes (r.nodes6.flatMap compactNode)]) ++
+  (match r.token with | some t => [.bytes K.token, .bytes t] | none => []) ++
+  (if r.values.isEmpty then [] else [.bytes K.values, .list (BList.ofList (r.values.map fun a => .bytes (compactAddr a)))])
 
 def msgTree (m : Msg) : BVal :=
   match m.body with
-  | .req r => .dict (BList.ofList [bstr "a", .dict (BList.ofList (reqArgs r)), bstr "q", bstr (reqName r),
-                                   bstr "t", .bytes m.tid, bstr "y", bstr "q"])
-  | .resp r => .dict (BList.ofList [bstr "r", .dict (BList.ofList (respArgs r)), bstr "t", .bytes m.tid, bstr "y", bstr "r"])
-  | .err code msg => .dict (BList.ofList [bstr "e", .list (BList.ofList [.int (Int.ofNat code), .bytes msg]),
-                                          bstr "t", .bytes m.tid, bstr "y", bstr "e"])
+  | .req r => .dict (BList.ofList [.bytes K.a, .dict (BList.ofList (reqArgs r)), .bytes K.q, .bytes (reqName r),
+                                   .bytes K.t, .bytes m.tid, .bytes K.y, .bytes K.q])
+  | .resp r => .dict (BList.ofList [.bytes K.r, .dict (BList.ofList (respArgs r)), .bytes K.t, .bytes m.tid, .bytes K.y, .bytes K.r])
+  | .err code msg => .dict (BList.ofList [.bytes K.e, .list (BList.ofList [.int (Int.ofNat code), .bytes msg]),
+                                          .bytes K.t, .bytes m.tid, .bytes K.y, .bytes K.e])
 
 /-- the serializer fails only on a node of the wrong family in `nodes` / `nodes6` -/
 def encodable (m : Msg) : Bool :=
@@ -204,8 +254,8 @@ def decodeWant (v : BVal) : Option (Option Want) :=
         if !validUtf8 b then none
         else
           let s := trimAscii b
-          let is4 := s = str "n4" || s = str "N4"
-          let is6 := s = str "n6" || s = str "N6"
+          let is4 := s = K.n4 || s = K.N4
+          let is6 := s = K.n6 || s = K.N6
           some (match acc with
             | none => if is4 then some .n4 else if is6 then some .n6 else none
             | some .n4 => if is6 then some .both else some .n4
@@ -220,14 +270,14 @@ def intIn (v : BVal) (hi : Nat) : Option Nat :=
   | _ => none
 
 /-- an optional field: absent → `dflt`; present twice → failure -/
-def optField {α} (items : List BVal) (key : String) (dec : BVal → Option α) (dflt : α) : Option α :=
-  match fieldOf (str key) items with
+def optField {α} (items : List BVal) (key : Bytes) (dec : BVal → Option α) (dflt : α) : Option α :=
+  match fieldOf key items with
   | none => some dflt
   | some none => none
   | some (some v) => dec v
 
-def reqField {α} (items : List BVal) (key : String) (dec : BVal → Option α) : Option α :=
-  match fieldOf (str key) items with
+def reqField {α} (items : List BVal) (key : Bytes) (dec : BVal → Option α) : Option α :=
+  match fieldOf key items with
   | some (some v) => dec v
   | _ => none
 
@@ -235,24 +285,24 @@ def reqField {α} (items : List BVal) (key : String) (dec : BVal → Option α) 
 def decodeArgs (items : List BVal) : Option Req :=
   if !keysBytes items then none else
   let findNode : Option Req := do
-    let id ← reqField items "id" idLike
-    let target ← reqField items "target" idLike
-    let want ← optField items "want" decodeWant none
+    let id ← reqField items K.id idLike
+    let target ← reqField items K.target idLike
+    let want ← optField items K.want decodeWant none
     pure (.findNode id target want)
   let announce : Option Req := do
-    let id ← reqField items "id" idLike
-    let ih ← reqField items "info_hash" idLike
-    let token ← reqField items "token" bytesLike
-    let port ← reqField items "port" (intIn · 65535)
-    let implied ← optField items "implied_port" (fun v => (intIn v 255).map (fun n => decide (n > 0))) false
+    let id ← reqField items K.id idLike
+    let ih ← reqField items K.infoHash idLike
+    let token ← reqField items K.token bytesLike
+    let port ← reqField items K.port (intIn · 65535)
+    let implied ← optField items K.impliedPort (fun v => (intIn v 255).map (fun n => decide (n > 0))) false
     pure (.announce id ih (if implied then none else some port) token)
   let getPeers : Option Req := do
-    let id ← reqField items "id" idLike
-    let ih ← reqField items "info_hash" idLike
-    let want ← optField items "want" decodeWant none
+    let id ← reqField items K.id idLike
+    let ih ← reqField items K.infoHash idLike
+    let want ← optField items K.want decodeWant none
     pure (.getPeers id ih want)
   let ping : Option Req := do
-    let id ← reqField items "id" idLike
+    let id ← reqField items K.id idLike
     pure (.ping id)
   findNode <|> announce <|> getPeers <|> ping
 
@@ -263,11 +313,11 @@ def decodeValues (v : BVal) : Option (List Addr) :=
 
 def decodeResp (items : List BVal) : Option Resp :=
   if !keysUtf8 items then none else do
-  let id ← reqField items "id" idLike
-  let values ← optField items "values" decodeValues []
-  let nodes4 ← optField items "nodes" (fun v => (bytesLike v).bind fun b => decodeNodes Constants.SOCKET_ADDR_V4_LEN (b.length + 1) b) []
-  let nodes6 ← optField items "nodes6" (fun v => (bytesLike v).bind fun b => decodeNodes Constants.SOCKET_ADDR_V6_LEN (b.length + 1) b) []
-  let token ← optField items "token" (fun v => (bytesLike v).map some) none
+  let id ← reqField items K.id idLike
+  let values ← optField items K.values decodeValues []
+  let nodes4 ← optField items K.nodes (fun v => (bytesLike v).bind fun b => decodeNodes Constants.SOCKET_ADDR_V4_LEN (b.length + 1) b) []
+  let nodes6 ← optField items K.nodes6 (fun v => (bytesLike v).bind fun b => decodeNodes Constants.SOCKET_ADDR_V6_LEN (b.length + 1) b) []
+  let token ← optField items K.token (fun v => (bytesLike v).map some) none
   pure { id := id, values := values, nodes4 := nodes4, nodes6 := nodes6, token := token }
 
 def decodeErr (v : BVal) : Option (Nat × Bytes) :=
@@ -280,10 +330,8 @@ def decodeErr (v : BVal) : Option (Nat × Bytes) :=
     | _ => none
   | _ => none
 
-def reqNameOf? (b : Bytes) : Option String :=
-  if b = str "ping" then some "ping" else if b = str "find_node" then some "find_node"
-  else if b = str "get_peers" then some "get_peers" else if b = str "announce_peer" then some "announce_peer"
-  else none
+def reqNameOf? (b : Bytes) : Option Bytes :=
+  if b = K.ping ∨ b = K.findNode ∨ b = K.getPeers ∨ b = K.announcePeer then some b else none
 
 /-- is this value a list (the quirk class "sequence where a struct is expected")? -/
 def isList : BVal → Bool
@@ -293,6 +341,37 @@ def isDict : BVal → Bool
   | .dict _ => true
   | _ => false
 
+def isDup {α} : Option (Option α) → Bool
+  | some none => true
+  | _ => false
+
+/-- the `q` field: absent, or one of the four method names -/
+def decodeQ : Option BVal → Option (Option Bytes)
+  | none => some none
+  | some (.bytes b) => (reqNameOf? b).map some
+  | some _ => none
+
+/-- `TryFrom<RawMessage> for Message`: every present field decoded; the type `y` selects the body;
+a query's method name must match the shape of its arguments -/
+def assemble (tid : Option Bytes) (y : Option Bytes) (q : Option (Option Bytes)) (a : Option (Option Req))
+    (r : Option (Option Resp)) (e : Option (Option (Nat × Bytes))) : Verdict :=
+  match tid, y, q, a, r, e with
+  | some tid, some y, some q, some a, some r, some e =>
+    if y = K.q then
+      match q, a with
+      | some name, some req => if reqName req = name then .ok ⟨tid, .req req⟩ else .error
+      | _, _ => .error
+    else if y = K.r then
+      match r with
+      | some resp => .ok ⟨tid, .resp resp⟩
+      | none => .error
+    else if y = K.e then
+      match e with
+      | some (code, msg) => .ok ⟨tid, .err code msg⟩
+      | none => .error
+    else .error
+  | _, _, _, _, _, _ => .error
+
 /-- interpretation of the top-level tree -/
 def decodeTree (v : BVal) : Verdict :=
   match v with
@@ -301,20 +380,19 @@ def decodeTree (v : BVal) : Verdict :=
     let items := l.toList
     if !keysUtf8 items then .error else
     -- every known field is deserialized when present, whatever the message type
-    match fieldOf (str "t") items, fieldOf (str "y") items, fieldOf (str "q") items,
-          fieldOf (str "a") items, fieldOf (str "r") items, fieldOf (str "e") items with
-    | some none, _, _, _, _, _ | _, some none, _, _, _, _ | _, _, some none, _, _, _
-    | _, _, _, some none, _, _ | _, _, _, _, some none, _ | _, _, _, _, _, some none => .error
-    | ft, fy, fq, fa, fr, fe =>
+    let ft := fieldOf K.t items
+    let fy := fieldOf K.y items
+    let fq := fieldOf K.q items
+    let fa := fieldOf K.a items
+    let fr := fieldOf K.r items
+    let fe := fieldOf K.e items
+    -- a known key given twice is an error
+    if isDup ft || isDup fy || isDup fq || isDup fa || isDup fr || isDup fe then .error else
       let get (f : Option (Option BVal)) : Option BVal := f.bind id
       -- quirk classes first
       if (get fy).any isDict || (get fq).any isDict || (get fa).any isList || (get fr).any isList then .unmodelled else
       let tid := (get ft).bind bytesLike
       let y : Option Bytes := match get fy with | some (.bytes b) => some b | _ => none
-      let q : Option (Option String) := match get fq with
-        | none => some none
-        | some (.bytes b) => (reqNameOf? b).map some
-        | some _ => none
       let a : Option (Option Req) := match get fa with
         | none => some none
         | some (.dict l) => (decodeArgs l.toList).map some
@@ -326,22 +404,7 @@ def decodeTree (v : BVal) : Verdict :=
       let e : Option (Option (Nat × Bytes)) := match get fe with
         | none => some none
         | some v => (decodeErr v).map some
-      match tid, y, q, a, r, e with
-      | some tid, some y, some q, some a, some r, some e =>
-        if y = str "q" then
-          match q, a with
-          | some name, some req => if reqName req = name then .ok ⟨tid, .req req⟩ else .error
-          | _, _ => .error
-        else if y = str "r" then
-          match r with
-          | some resp => .ok ⟨tid, .resp resp⟩
-          | none => .error
-        else if y = str "e" then
-          match e with
-          | some (code, msg) => .ok ⟨tid, .err code msg⟩
-          | none => .error
-        else .error
-      | _, _, _, _, _, _ => .error
+      assemble tid y (decodeQ (get fq)) a r e
   | _ => .error
 
 /-- `Message::decode` -/
